@@ -6,7 +6,11 @@
 
 package types
 
-import "wa-lang.org/wa/internal/constant"
+import (
+	"unicode"
+
+	"wa-lang.org/wa/internal/constant"
+)
 
 // Conversion type-checks the conversion T(x).
 // The result is in x.
@@ -21,14 +25,14 @@ func (check *Checker) conversion(x *operand, T Type) {
 		case representableConst(x.val, check, t, &x.val):
 			ok = true
 		case isInteger(x.typ) && isString(t):
-			codepoint := int64(-1)
-			if i, ok := constant.Int64Val(x.val); ok {
-				codepoint = i
+			// A value outside the Unicode range (negative, above MaxRune, or too
+			// large for uint64) converts to "\uFFFD"; it must not be truncated to
+			// 32 bits first.
+			codepoint := unicode.ReplacementChar
+			if i, ok := constant.Uint64Val(x.val); ok && i <= unicode.MaxRune {
+				codepoint = rune(i)
 			}
-			// If codepoint < 0 the absolute value is too large (or unknown) for
-			// conversion. This is the same as converting any other out-of-range
-			// value - var string(codepoint) do the work.
-			x.val = constant.MakeString(string(rune(codepoint)))
+			x.val = constant.MakeString(string(codepoint))
 			ok = true
 		}
 	case x.convertibleTo(check, T):
